@@ -5,9 +5,11 @@ package main
 
 import (
 	"bytes"
+	"encoding/binary"
 	"encoding/hex"
 	"fmt"
 	"os"
+	"runtime"
 	"sync/atomic"
 	"time"
 
@@ -187,6 +189,100 @@ func checkBytes(kind string, in []byte) {
 	}
 }
 
+// ownEncode: the wire layout written from the property statement (independent of vaa.Marshal).
+func ownEncode(v *vaa.VAA) []byte {
+	b := []byte{v.Version, byte(v.GuardianSetIndex >> 24), byte(v.GuardianSetIndex >> 16), byte(v.GuardianSetIndex >> 8), byte(v.GuardianSetIndex), byte(len(v.Signatures))}
+	for _, s := range v.Signatures {
+		b = append(b, s.Index)
+		b = append(b, s.Signature[:]...)
+	}
+	var f [53]byte
+	binary.BigEndian.PutUint32(f[0:], uint32(v.Timestamp.Unix()))
+	binary.BigEndian.PutUint32(f[4:], v.Nonce)
+	binary.BigEndian.PutUint16(f[8:], uint16(v.EmitterChain))
+	binary.BigEndian.PutUint16(f[10:], uint16(v.TargetChain))
+	copy(f[12:44], v.EmitterAddress[:])
+	binary.BigEndian.PutUint64(f[44:], v.Sequence)
+	f[52] = v.ConsistencyLevel
+	return append(append(b, f[:]...), v.Payload...)
+}
+
+// inFlight: several VAAs are encoded and decoded one after the other and every result is RETAINED; after
+// each further operation every retained encoding must still be the encoding of its VAA and every retained
+// decoded VAA must still equal its source (encodings and decodings are values, not views of shared memory).
+// All ordered sequences of length 2..3 over a size alphabet; single goroutine pinned to one P so that any
+// per-P cache in the code under test is hit deterministically.
+func inFlight() {
+	runtime.LockOSThread()
+	defer runtime.UnlockOSThread()
+	type shape struct{ ns, pl int }
+	shapes := []shape{{0, 1}, {1, 57}, {13, 1000}, {13, 3300}, {13, 6000}, {19, 9000}, {2, 70000}}
+	if r.Thorough() {
+		shapes = append(shapes, shape{1, 200}, shape{255, 2000}, shape{0, 4000}, shape{3, 1 << 20})
+	}
+	mk := func(si int, salt int) *vaa.VAA {
+		c := valueCase{Version: 1, GSI: uint32(salt), NSigs: shapes[si].ns, SigPat: 0, TS: 1700000000 + int64(salt), Nonce: uint32(si), Seq: uint64(100*salt + si), CL: 1, EC: 2, TC: 255, Addr: salt % 4, PayloadLn: shapes[si].pl}
+		return c.build()
+	}
+	type held struct {
+		src *vaa.VAA
+		enc []byte
+		own []byte
+		dec *vaa.VAA
+	}
+	n := 0
+	var seq func(prefix []int, maxLen int)
+	runSeq := func(order []int) {
+		n++
+		atomic.AddInt64(&evals, 1)
+		var hs []*held
+		checkAll := func(stage string) {
+			for hi, h := range hs {
+				if !bytes.Equal(h.enc, h.own) {
+					r.Violation("in-flight: a retained encoding changed after a later encode/decode", fmt.Sprintf("order %v: encoding #%d (%d bytes) differs from the layout of its VAA after %s", order, hi, len(h.enc), stage), map[string]interface{}{"order": order, "shapes": shapes})
+					return
+				}
+				if h.dec != nil {
+					if f := equalVAA(h.src, h.dec); f != "" {
+						r.Violation("in-flight: a retained decoded VAA changed after a later encode/decode", fmt.Sprintf("order %v: decoded #%d field %s after %s", order, hi, f, stage), map[string]interface{}{"order": order, "shapes": shapes})
+						return
+					}
+				}
+			}
+		}
+		for k, si := range order {
+			v := mk(si, k+1)
+			b, err := v.Marshal()
+			if err != nil {
+				return
+			}
+			h := &held{src: v, enc: b, own: ownEncode(v)}
+			hs = append(hs, h)
+			checkAll(fmt.Sprintf("encode #%d", k))
+			// decode from an exact-capacity private copy so that only the code under test can alias
+			d, err := vaa.Unmarshal(append(make([]byte, 0, len(h.own)), h.own...))
+			if err == nil {
+				h.dec = d
+			}
+			checkAll(fmt.Sprintf("decode #%d", k))
+		}
+	}
+	seq = func(prefix []int, maxLen int) {
+		if len(prefix) >= 2 {
+			runSeq(prefix)
+		}
+		if len(prefix) == maxLen {
+			return
+		}
+		for i := range shapes {
+			seq(append(append([]int{}, prefix...), i), maxLen)
+		}
+	}
+	seq(nil, 3)
+	r.Set("in_flight_sequences", n)
+	nontriv += int64(n)
+}
+
 func main() {
 	r = ev.Start("C05", "exploration")
 	_ = os.Args
@@ -261,6 +357,9 @@ func main() {
 	}
 	r.Set("value_cases", len(cases))
 	nontriv += int64(len(cases))
+
+	// ---- (a') several VAAs in flight
+	inFlight()
 
 	// ---- (b) byte space
 	// every byte string of length 0..2
@@ -337,7 +436,7 @@ func main() {
 	r.Set("byte_edits_distinct", int(distinctEdits))
 	r.Set("evaluations", int(evals))
 	r.Set("distinct_nontrivial", int(nontriv))
-	r.Set("rule", "values: for each (signature count, index pattern, payload length) every pair of the 8 remaining fields ranges over its boundary alphabet, others default, deduplicated; bytes: all strings of length 0..2, and for each valid base encoding every prefix, single-byte substitution (7 values), deletion, insertion (0x00,0xff), every signature-count byte, 5 tail extensions, deduplicated per base. Every distinct case counts as non-trivial (each hits a boundary value or a malformed shape).")
+	r.Set("rule", "values: for each (signature count, index pattern, payload length) every pair of the 8 remaining fields ranges over its boundary alphabet, others default, deduplicated; in flight: every ordered sequence of 2..3 VAAs over the size alphabet is encoded and decoded with all results retained and re-compared against an independent encoder after every step; bytes: all strings of length 0..2, and for each valid base encoding every prefix, single-byte substitution (7 values), deletion, insertion (0x00,0xff), every signature-count byte, 5 tail extensions, deduplicated per base. Every distinct case counts as non-trivial (each hits a boundary value or a malformed shape).")
 	r.Assume("timestamps are whole seconds in [0, 2^32): the wire field is 32 bits")
 	r.Finish()
 }
